@@ -14,7 +14,7 @@ import (
 	"verif/scenarios/reg"
 )
 
-var faultKinds = []string{"none", "err", "eof", "data+eof", "short", "peerclose", "localclose"}
+var faultKinds = []string{"none", "err", "eof", "data+eof", "garbage", "short", "peerclose", "localclose"}
 
 // maxOps bounds the fault position; the fault-free run of every family must
 // stay below it (checked).
@@ -92,7 +92,7 @@ func body(nCalls int, withSub bool, localCloser bool) func() {
 				if (kind == "short") && op != "write" {
 					return nil
 				}
-				if (kind == "eof" || kind == "data+eof") && op != "read" {
+				if (kind == "eof" || kind == "data+eof" || kind == "garbage") && op != "read" {
 					return nil
 				}
 				return &vnet.Fault{Kind: kind}
@@ -241,7 +241,7 @@ func threadName(i, nCalls int) string {
 func init() {
 	reg.Register(&reg.Scenario{Property: "C11", Name: "one-call", Body: body(1, false, false), Quick: 2, Thorough: 4,
 		Doc:      "1 call; every fault kind at every I/O operation of the client stream",
-		MustFlag: []string{"all-calls-succeeded", "io:read-completed-while-own-write-in-progress", "fault-fired:err", "fault-fired:eof", "fault-fired:data+eof", "fault-fired:short", "fault-fired:peerclose", "fault-fired:localclose"}})
+		MustFlag: []string{"all-calls-succeeded", "io:read-completed-while-own-write-in-progress", "fault-fired:err", "fault-fired:eof", "fault-fired:data+eof", "fault-fired:garbage", "fault-fired:short", "fault-fired:peerclose", "fault-fired:localclose"}})
 	reg.Register(&reg.Scenario{Property: "C11", Name: "two-calls", Body: body(2, false, false), Quick: 2, Thorough: 3,
 		Doc: "2 concurrent calls; every fault kind at every I/O operation", MustFlag: []string{"all-calls-succeeded", "fault-fired:err"}})
 	reg.Register(&reg.Scenario{Property: "C11", Name: "call-sub-disconnect", Body: body(1, true, false), Quick: 2, Thorough: 3,
